@@ -20,6 +20,10 @@ vars == <<cfg, live, index, forked, nops, ret, hist>>
 \* the history is hidden from the state space except for the kind of the last operation, so that every
 \* kind of operation is replayed into every reachable abstract state
 View == <<cfg, live, index, forked, nops, IF hist = <<>> THEN "" ELSE hist[Len(hist)].op>>
+\* finer view for small pools: one history per (state, sequence of operation KINDS and handles): the same abstract state is
+\* also reached through a change-set where another history reaches it through single insertions (per-layer counters and
+\* other hidden implementation state may differ)
+ViewKinds == <<cfg, live, index, forked, nops, [k \in 1..Len(hist) |-> <<hist[k].op, hist[k].h>>]>>
 
 Handles == {1, 2}
 Exists(h) == h = 1 \/ forked
